@@ -45,6 +45,7 @@ type HarnessSpec struct {
 	ReplaySecs  int               `json:"replay_timeout_s,omitempty"`
 	MaxConc     int               `json:"max_concretize,omitempty"`
 	Solver      string            `json:"solver,omitempty"`
+	Merge       bool              `json:"merge,omitempty"`
 }
 
 type PropSpec struct {
@@ -399,6 +400,7 @@ func cmdCheck(args []string) {
 		if h.MaxConc > 0 {
 			cfg.MaxConcretize = h.MaxConc
 		}
+		cfg.Merge = h.Merge
 		switch h.Solver {
 		case "cvc5":
 			cfg.Solver = CVC5
